@@ -208,6 +208,7 @@ func samRecordPool() []samRec {
 }
 
 func runC03(r *core.Run) {
+	racePass(r, "race-format-sam", "the sam codec: readers each on their own stream (whole and in 7-byte reads, every corpus file), Write on shared records into separate destinations, File on one shared path; every result is compared with what the same call returned when it ran alone")
 	firstCallClause(r, "sam.")
 	texts := samTextMenu()
 	qnames := []string{}
@@ -372,6 +373,42 @@ func runC03(r *core.Run) {
 		var data []byte
 		var want []obsItem
 		for _, rc := range []samRec{first, second} {
+			d, fail := writeSAMChecked(rc.build())
+			if fail != "" {
+				return nil, nil, true, fail
+			}
+			data = append(data, d...)
+			want = append(want, obsItem{Rec: renderSAM(rc.build())})
+		}
+		return data, want, true, ""
+	})
+	escapeSpellingsClause(r, "sam", []string{"qname", "rname", "cigar", "rnext", "seq", "qual", "ztag", "ztag-last"}, func(field, v string) ([]byte, []obsItem, bool, string) {
+		if hasDelim(v) || (field == "qname" && v[0] == '@') {
+			return nil, nil, false, ""
+		}
+		first, mid, last := defaultSamRec(), defaultSamRec(), defaultSamRec()
+		first.Qname, last.Qname = "first", "last"
+		switch field {
+		case "qname":
+			mid.Qname = core.S(v)
+		case "rname":
+			mid.Rname = core.S(v)
+		case "cigar":
+			mid.Cigar = core.S(v)
+		case "rnext":
+			mid.Rnext = core.S(v)
+		case "seq":
+			mid.Seq = core.S(v)
+		case "qual":
+			mid.Qual = core.S(v)
+		case "ztag":
+			mid.Tags = []samTag{{Name: "XZ", Type: "Z", Z: core.S(v)}, {Name: "NM", Type: "i", I: 7}}
+		default:
+			mid.Tags = []samTag{{Name: "ZZ", Type: "Z", Z: core.S(v)}}
+		}
+		var data []byte
+		var want []obsItem
+		for _, rc := range []samRec{first, mid, last} {
 			d, fail := writeSAMChecked(rc.build())
 			if fail != "" {
 				return nil, nil, true, fail
